@@ -28,24 +28,35 @@ THEOREMS = ['Props.C19.' + t for t in [
     'incon_transfer_atmosphere_percolumn', 'incon_transfer_total_partial', 'incon_transfer_source_unaltered',
     'rocktype_transfer_spec', 'rocktype_transfer_identity',
     'generator_transfer_identity', 'generator_totals_identity']]
-LEVEL_TEXT = ('Proof: Lean theorems about an executable model of block_mapping/column_mapping/layer_mapping, '
-              't2incon.transfer_from and the t2data generator/rock-type transfer: totality and existence in the source, '
-              'nearest column / nearest layer / first layer below ground, identity on self, the 3x3 atmosphere table of the '
-              'initial-condition transfer (incl. what the average is), rock-type transfer, and item-for-item preservation of generators and totals on an identical geometry. block_mapping_total is PARTIAL: proved '
-              'for 7 of the 9 atmosphere combinations; for source type 1 or 2 onto target type 0 the code raises KeyError (known '
-              'finding, proved as witnesses and in general). Tied to /repo by correspondence runs on generated and shipped geometry pairs.')
-LEVEL_NOTE = ('Trusted: Lean kernel (+propext, Classical.choice, Quot.sound); scipy cKDTree.query is a parameter of the model constrained '
-              'by IsNearest (checked on every explored case in exact arithmetic); block volumes / column areas / column_containing_point are '
-              'inputs of the generator-transfer model; "source unchanged" is an oracle-only clause (the model is functional); IEEE rounding '
-              'abstracted (decisions closer than 1e-9 relative are discarded as unstable).')
-TECHNIQUE = 'Lean 4 proof over an executable model of the mapping and transfer code + differential correspondence + direct oracle'
+LEVEL_TEXT = ('Proof: 18 Lean theorems (no sorry) about an executable model of mulgrid.block_mapping / column_mapping / layer_mapping / '
+              'column_surface_layer, t2incon.transfer_from (functional and object-heap versions) and t2data.transfer_generators_from / '
+              'transfer_rocktypes_from: block_mapping returns and is total, underground blocks go to existing source blocks, atmosphere blocks to '
+              'the source\'s corresponding atmosphere block; the image is the nearest column x nearest layer, moved to the column\'s first '
+              'layer below ground exactly when the block would be above the surface; a geometry onto itself is the identity (all 3 atmosphere types); '
+              'initial conditions: every underground block gets exactly its mapped source block\'s state, the 3x3 atmosphere table (first/average/'
+              'broadcast/per mapped column/default) incl. what the average is, totality, and (heap model) no pre-existing object is altered; '
+              'rock types follow the mapping; onto an identical geometry every generator and hence every total is reproduced item for item '
+              '(top/bottom/interior, tables, rename, preserve_totals). PARTIAL: totality statements hold for 7 of the 9 atmosphere combinations; '
+              'for source type 1 or 2 onto target type 0 block_mapping raises KeyError (known finding, not repaired): proved on two concrete '
+              'witnesses and in general. Tied to /repo on every run by correspondence (names, block_mapping incl. the scipy-less fallback and '
+              'geometries outside the hypotheses, incon transfer in both models, generator/rock/print-block/incon-dict transfer) and a direct oracle.')
+LEVEL_NOTE = ('Trusted: Lean kernel (+propext, Classical.choice, Quot.sound); scipy cKDTree.query is a parameter of the model constrained by '
+              'IsNearest (its actual choices are checked in exact arithmetic on every explored pair; ties are replayed through the model as a table); '
+              'block volumes, column areas and column_containing_point are inputs of the generator model (C04/C12); hypotheses are decidable GeoInv '
+              'predicates (unique names of the convention\'s length, fix_blockname inert on target names = C17\'s conclusion for library-made names, '
+              'layer bottoms descending, stored num_layers consistent and >= 1) evaluated on every explored case (all satisfied); the shallow-copy '
+              'sharing of variable lists is not modelled; IEEE rounding abstracted (exact rationals of the doubles; decisions closer than 1e-9 '
+              'relative would be discarded as unstable: none occurred).')
+TECHNIQUE = 'Lean 4 proof over executable models (functional + object heap) of the mapping and transfer code + differential correspondence + direct oracle'
 ASSUMPTIONS = [
     'cKDTree.query returns an index of minimal distance (IsNearest); verified in exact arithmetic on every explored case',
     'geometries satisfy GeoInv (srcOK / tgtOK in Model/Mapping.lean): unique names of the convention\'s lengths, fix_blockname inert on target names, '
     'layer bottoms descending, stored num_layers consistent and >= 1; evaluated on every explored case',
-    'exact rational arithmetic; comparisons decided by less than 1e-9 relative are discarded and counted',
+    'exact rational arithmetic on the doubles\' exact values; comparisons decided by less than 1e-9 relative are discarded and counted',
+    'generator identity theorem: generators sit where their names say (genPlaced) and block volumes of source and target grids agree; evaluated on every identity transfer explored',
 ]
-TRUSTED_EXTRA = ['numpy.argmin returns the first minimum', 'copy.copy/deepcopy semantics (the model is functional; aliasing is not modelled)']
+TRUSTED_EXTRA = ['numpy.argmin returns the first minimum', 'copy.copy/deepcopy semantics as modelled (copy = new object; shared variable lists not modelled)',
+                 't2grid.fromgeo block names/volumes and mulgrid.column_containing_point (inputs of the generator-transfer model; properties C04, C12)']
 EVIDENCE_EXTRA = {'tolerances': {'nearest margin (unstable below)': '1e-9 relative', 'averaged atmosphere / scaled generator values': '1e-12 relative'}}
 
 TOL = 1e-9
@@ -1156,7 +1167,7 @@ def run_inner(ctx, scale=1.0, only_oracle=False):
                 res.violations += v
                 res.count('data:identity-oracle')
                 ident_jobs.append((dat, top, bot))
-            if npairs % 7 == 3 and real[0] == 'ok' and s.convention != 3 and t.convention != 3 and inc_jobs and nvars <= 4 \
+            if npairs % 3 == 1 and real[0] == 'ok' and s.convention != 3 and t.convention != 3 and inc_jobs and nvars <= 4 \
                     and (s.atmosphere_type, t.atmosphere_type) != (2, 1) \
                     and all(mulgrids.valid_blockname(b) for g in (s, t) for b in g.block_name_list):
                 # (names the incon reader rejects — convention 3, left-justified — and more than 4 variables per block read
